@@ -69,6 +69,7 @@ inductive EqKey
 
 def World.eqKey (w : World) (o : Nat) : EqKey :=
   let op := w.op o
+  if w.identKeys then .ident o else
   match op.cls with
   | .comp => .comp op.link op.rep
   | .barrier | .cshift | .measure => .ident o
